@@ -114,6 +114,10 @@ func (s *Service) All() map[uint64]*core.Endpoint {
 // Suitable returns peers that are suitable given the supplied requirements.
 // At current any peer that is present is considered suitable.
 func (s *Service) Suitable(threshold uint32) ([]*core.Endpoint, error) {
+	// Do not size anything by the requested number before knowing that it can be satisfied.
+	if uint64(threshold) > uint64(len(s.peers)) {
+		return nil, errors.New("not enough suitable peers")
+	}
 	suitable := uint32(0)
 	res := make([]*core.Endpoint, threshold)
 	for _, peer := range s.peers {
